@@ -362,6 +362,13 @@ class Stats:
 
     def violate(self, kind, sig, detail, replay=None):
         """kind: short category; sig: exact signature used for known-finding matching."""
+        if sig is not None:
+            # violations carrying a mechanism signature are counted per signature and only a few are kept, so that a
+            # frequent (possibly known) mechanism cannot crowd other violations out of the bounded list
+            self.c["sig:" + sig] += 1
+            if self.c["sig:" + sig] > 5:
+                self.c["violations_total"] += 1
+                return
         if len(self.violations) < 400:
             self.violations.append({"kind": kind, "sig": sig, "detail": detail, "replay": replay})
         self.c["violations_total"] += 1
@@ -466,7 +473,7 @@ class Ctx:
                     break
             if hit:
                 known_hits.setdefault(hit["sig"], [hit, 0])
-                known_hits[hit["sig"]][1] += 1
+                known_hits[hit["sig"]][1] = max(known_hits[hit["sig"]][1] + 1, int(st.c.get("sig:" + hit["sig"], 0)))
             else:
                 fresh.append(v)
         inconclusive_reasons = []
